@@ -369,3 +369,159 @@ def empty_edges(body, params):
                         for swb, tt, ft in bool_switches(body, {"d": s["d"]}):
                             out.append((swb, tt) if s["op"] == "Eq" else (swb, ft))
     return out
+
+
+# ---------------------------------------------------------------- added for C20-R12 (reusable; nothing below knows a name)
+
+def reach_cut(body, starts, avoid=(), cut=()):
+    """blocks reachable from `starts` without entering a block of `avoid` and without using a CFG edge of `cut` ((src, dst) pairs)"""
+    cut = set(cut)
+    seen = set()
+    st = [s for s in starts if s not in avoid]
+    while st:
+        b = st.pop()
+        if b in seen:
+            continue
+        seen.add(b)
+        for s in body.succ(b):
+            if s not in seen and s not in avoid and (b, s) not in cut:
+                st.append(s)
+    return seen
+
+
+def deep_locals(body, operand, stop_terms=()):
+    """locals on the backward data slice of `operand` through EVERY statement and EVERY call (the result of a call derives from all
+    its arguments), field-insensitive.  The slice does not continue behind the call terminators in `stop_terms` (their destination
+    is still part of the result)."""
+    defs = body.defs()
+    stop = {id(t) for t in stop_terms}
+    seen = set()
+    st = [operand[0]] if isinstance(operand, list) else []
+    if isinstance(operand, list):
+        st += [int(m) for m in re.findall(r"\[_(\d+)\]", operand[1])]
+    while st:
+        l = st.pop()
+        if l in seen:
+            continue
+        seen.add(l)
+        for _, s in defs.get(l, []):
+            if id(s) in stop:
+                continue
+            ops = s["args"] if s.get("k") == "call" else s.get("src", [])
+            for o in ops:
+                if isinstance(o, list):
+                    st.append(o[0])
+    return seen
+
+
+def emptiness_edges(body, pred):
+    """CFG edges (src, dst) taken exactly when a text / slice operand satisfying `pred(operand)` is EMPTY: the true edge of
+    `x.is_empty()`, of `x.len() == 0`, the false edge of `x.len() != 0` (any polarity spelling).  Generalises empty_edges."""
+    out = []
+    for b, t in body.calls():
+        cal = callee_of(t)
+        if EMPTY_RX.search(cal) and t["args"] and pred(t["args"][0]):
+            out += [(swb, tt) for swb, tt, ft in bool_switches(body, t)]
+        elif LEN_RX.search(cal) and t["args"] and pred(t["args"][0]):
+            d = t["d"][0]
+            for _, s in body.stmts():
+                if s.get("rk") == "bin" and s.get("op") in ("Eq", "Ne") and len(s["src"]) == 2:
+                    loc = [o for o in s["src"] if isinstance(o, list) and o[0] == d and o[1] == ""]
+                    cst = [o for o in s["src"] if isinstance(o, dict) and str(o.get("c")) == "0"]
+                    if loc and cst:
+                        for swb, tt, ft in bool_switches(body, {"d": s["d"]}):
+                            out.append((swb, tt) if s["op"] == "Eq" else (swb, ft))
+    return out
+
+
+VALUE_PASS = re.compile(r"(::deref$|::deref_mut$|::as_ref$|::as_mut$|::borrow$|::borrow_mut$|::clone$|::into$|::from$|::as_str$|::as_mut_str$|"
+                        r"::to_owned$|::to_string$|::as_bytes$|Try>::branch$|Try::branch$|core::fmt::rt::Argument.*::new_\w+$|core::fmt::Arguments.*::new\w*$|alloc::fmt::format$)")
+OPTION_SELECT = re.compile(r"option::Option::<T>::(map_or|map_or_else|unwrap_or|unwrap_or_else)$")
+CLOSURE_TY = re.compile(r"^C\{(.+?)\|")
+
+
+def value_leaves(cg, body, operand, classify_call=None, field=None, _seen=None, _ctx=None):
+    """Where the VALUE of `operand` comes from, field-sensitively for tuples (`let (a, b) = match .. { .. => (x, y), .. }`: the
+    leaves of `b` are the second components only) and through value-preserving calls only (deref / as_str / clone / fmt plumbing;
+    NOT trim / strip_suffix / index - those change the value and are leaves).  `Option::map_or(default, closure)` and friends are
+    selections: the leaves are those of the default and of the closure's return value, tagged ("sel", "some"|"none", receiver operand).
+    Leaves:  ("const", text, where)   where = ("blk", block) in `body` or the ("sel", ..) tag
+             ("local", l)             a local without definition here that `stop(l)` accepts: reported as it is (e.g. the loop item)
+             ("arg", i) | ("call", callee, block, term) | ("op", kind, block)
+    `classify_call(term)` may return a leaf for a call (e.g. ("prefix", term)); None = default treatment."""
+    out = set()
+    seen = _seen if _seen is not None else set()
+    defs = body.defs()
+
+    def where(blk):
+        return _ctx if _ctx is not None else ("blk", blk)
+
+    def op_leaves(o, fld, blk):
+        if isinstance(o, dict):
+            out.add(("fn", o["fn"]) if "fn" in o else ("const", str(o.get("c")), where(blk)))
+        elif isinstance(o, list):
+            m = re.match(r"^\.(\d+)$", o[1])
+            if m and fld is None:
+                loc(o[0], int(m.group(1)))
+            elif m:
+                out.add(("op", "nested-field", blk))
+            else:
+                loc(o[0], fld)
+
+    def loc(l, fld):
+        if (l, fld) in seen:
+            return
+        seen.add((l, fld))
+        if 1 <= l <= body.nargs:
+            out.add(("arg", l))
+            return
+        ds = defs.get(l, [])
+        if not ds:
+            out.add(("local", l))
+        for blk, s in ds:
+            if s.get("k") == "call":
+                cal = callee_of(s)
+                leaf = classify_call(s, fld) if classify_call else None
+                if leaf is not None:
+                    out.add(leaf)
+                elif VALUE_PASS.search(cal) or (cal.endswith("::index") and any("RangeFull" in str(g) for g in s.get("ga", []))):
+                    for a in s["args"]:
+                        op_leaves(a, fld, blk)
+                elif OPTION_SELECT.search(cal) and len(s["args"]) >= 2:
+                    recv = s["args"][0]
+                    tag = lambda side: ("sel", side, recv[0] if isinstance(recv, list) else None)
+                    parts = [(s["args"][1], "none")] + ([(s["args"][2], "some")] if len(s["args"]) > 2 else [])
+                    if not cal.endswith("map_or") and not cal.endswith("map_or_else"):
+                        # unwrap_or(default): the Some side is the receiver's payload
+                        op_leaves(recv, fld, blk)
+                    for o, side in parts:
+                        cm = CLOSURE_TY.match(body.locals[o[0]]) if isinstance(o, list) else None
+                        cb = cg.bodies.get(cm.group(1)) if cm else None
+                        if cb is not None:
+                            for x in value_leaves(cg, cb, [0, ""], None, fld, None, tag(side)):
+                                if x[0] == "arg" and x[1] >= 2 and side == "some":
+                                    op_leaves(recv, None, blk)          # the closure's parameter = the payload of the receiver
+                                elif x[0] == "arg":
+                                    out.add(("op", "capture", blk))
+                                else:
+                                    out.add(x)
+                        else:
+                            sub = value_leaves(cg, body, o, classify_call, fld, set(seen), _ctx)
+                            out.update(("const", x[1], tag(side)) if x[0] == "const" and _ctx is None else x for x in sub)
+                else:
+                    out.add(("call", cal, blk, id(s)))
+            else:
+                rk = s.get("rk")
+                if s["d"][1] not in ("", "*"):
+                    out.add(("op", "partial-write", blk))
+                elif rk in ("use", "ref", "cast", "rawptr"):
+                    op_leaves(s["src"][0], fld, blk)
+                elif rk == "agg" and s.get("tuple") and fld is not None and fld < len(s["src"]):
+                    op_leaves(s["src"][fld], None, blk)
+                elif rk == "agg" and "adt" not in s and "closure" not in s:
+                    for o in s["src"]:
+                        op_leaves(o, None, blk)
+                else:
+                    out.add(("op", rk, blk))
+    op_leaves(operand, field, None)
+    return out
